@@ -11,7 +11,7 @@ class Horizon(Exception):
     """execution cut by the explicit horizon (neither pass nor violation)"""
 
 
-GROUP = {"vec": "vec", "grid": "grid", "fault-step": "fault", "fault-attempt": "fault", "fault-stage": "fault",
+GROUP = {"vec": "vec", "vec-retry": "retry", "grid": "grid", "fault-step": "fault", "fault-attempt": "fault", "fault-stage": "fault",
          "ee": "env", "uniform": "env", "angles": "env", "layout": "env"}
 
 
